@@ -221,6 +221,22 @@ def log_jac_oracle(bounds, y):
     return tot
 
 
+def num_log_jac(B, y, h=1e-5):
+    """log |det d theta / d theta_tilde| of the tree's own back-transform by central differences (the map is coordinate-wise);
+    None when a derivative vanishes numerically"""
+    y = np.asarray(y, dtype=float)
+    tot = 0.0
+    with np.errstate(all='ignore'):
+        for i in range(len(y)):
+            e = np.zeros(len(y))
+            e[i] = h
+            dv = (BSL._para_logit_back_transform(y + e, B)[i] - BSL._para_logit_back_transform(y - e, B)[i]) / (2 * h)
+            if not math.isfinite(dv) or dv == 0:
+                return None
+            tot += math.log(abs(dv))
+    return tot
+
+
 def transform_case(ctx, rng, reqs, meta):
     p = rng.randint(1, 3)
     bounds = gen_bounds(rng, p)
@@ -242,17 +258,17 @@ def transform_case(ctx, rng, reqs, meta):
         if not (a <= v <= b):
             ctx.fail_input(case, 'a back-transformed value %r lies outside its bounds (%r, %r)' % (float(v), a, b))
             return
-    # the Jacobian is the derivative of the back-transform (central difference per coordinate)
-    h = 1e-6
-    num = 0.0
-    for i in range(p):
-        e = np.zeros(p)
-        e[i] = h
-        dv = (BSL._para_logit_back_transform(y + e, B)[i] - BSL._para_logit_back_transform(y - e, B)[i]) / (2 * h)
-        num += math.log(dv) if dv > 0 else -math.inf
+    # the Jacobian is the (absolute) derivative of THIS TREE'S back-transform (central difference per coordinate): that is
+    # what the property's "ratio of the transform's Jacobians" refers to, whatever bijection the code uses
+    num = num_log_jac(B, y)
     exp = log_jac_oracle(bounds, y)
-    if math.isfinite(num) and not (math.isclose(J, num, rel_tol=1e-4, abs_tol=1e-4) and math.isclose(J, exp, rel_tol=1e-9, abs_tol=1e-9)):
-        ctx.fail_input(case, 'the coded log-Jacobian %r is not the log derivative of the back-transform (numerical %r, analytic %r)' % (J, num, exp), exp, J)
+    if num is not None and not math.isclose(J, num, rel_tol=1e-4, abs_tol=1e-4):
+        ctx.fail_input(case, 'the coded log-Jacobian %r is not the log |derivative| of the back-transform (numerical %r; analytic for the '
+                       'documented transform %r)' % (J, num, exp), num, J)
+        return
+    if not math.isclose(J, exp, rel_tol=1e-9, abs_tol=1e-9):
+        # consistent with its own back-transform but not the documented map: the model no longer describes the code
+        ctx.corr_break('jacobian-analytic', case, exp, J)
         return
     reqs.append(dict(op='C20.transform', bounds=[[bits(a), bits(b)] for a, b in bounds], x=[bits(v) for v in x], fixed=True))
     meta.append(('transform', case, (y.tolist(), xb.tolist(), J)))
@@ -288,15 +304,29 @@ def ratio_case(ctx, rng, reqs, meta):
     with np.errstate(all='ignore'):
         got = float(obj._get_mh_ratio())
     jc = jp = 0.0
+    njc = njp = 0.0
     if use_t:
         B = np.array(bounds)
-        jc = log_jac_oracle(bounds, BSL._para_logit_transform(np.array(cur), B))
-        jp = log_jac_oracle(bounds, BSL._para_logit_transform(np.array(prev), B))
+        with np.errstate(all='ignore'):
+            yc, yp = BSL._para_logit_transform(np.array(cur), B), BSL._para_logit_transform(np.array(prev), B)
+        jc, jp = log_jac_oracle(bounds, yc), log_jac_oracle(bounds, yp)
+        njc, njp = num_log_jac(B, yc), num_log_jac(B, yp)
     r = (jc - jp) + lp_c - lp_p
     exp = math.exp(max(-700.0, min(700.0, r)))
+    if njc is not None and njp is not None:
+        # the statement itself, with the Jacobian taken from this tree's own back-transform
+        rn = (njc - njp) + lp_c - lp_p
+        expn = math.exp(max(-700.0, min(700.0, rn)))
+        if not math.isclose(min(1.0, got), min(1.0, expn), rel_tol=1e-3, abs_tol=1e-300):
+            ctx.fail_input(case, 'acceptance probability min(1, ratio) = %r, the posterior ratio times the ratio of the Jacobians of the '
+                           'back-transform at the transformed points gives %r' % (min(1.0, got), min(1.0, expn)), min(1.0, expn), min(1.0, got))
+            return
     if not math.isclose(min(1.0, got), min(1.0, exp), rel_tol=1e-8, abs_tol=1e-300):
-        ctx.fail_input(case, 'acceptance probability min(1, ratio) = %r, the posterior ratio times the ratio of the Jacobians at the '
-                       'transformed points gives %r' % (min(1.0, got), min(1.0, exp)), min(1.0, exp), min(1.0, got))
+        if njc is None or njp is None:
+            ctx.fail_input(case, 'acceptance probability min(1, ratio) = %r, the posterior ratio times the ratio of the Jacobians at the '
+                           'transformed points gives %r' % (min(1.0, got), min(1.0, exp)), min(1.0, exp), min(1.0, got))
+        else:
+            ctx.corr_break('mh-ratio-analytic', case, min(1.0, exp), min(1.0, got))
         return
     reqs.append(dict(op='C20.mh', cur=bits(lp_c), prev=bits(lp_p), jCur=bits(jc), jPrev=bits(jp), u=bits(0.5)))
     meta.append(('mh', case, got))
